@@ -176,22 +176,23 @@ def objects(ctx, thorough):
         base = max(0, 0xFFFF * rng.randrange(0, 70000) + rng.randrange(-40, 40)) if rng.random() < 0.5 else \
             max(0, (1 << (8 * k)) + rng.randrange(-80, 10))
         out.append(('random', base, rng.randrange(256), rng.randrange(0, 71)))
-    big = [65537, 70000] if not thorough else [65535, 65536, 65537, 65550, 65551, 70000, 131073]
+    big = [65537, 70000, 65535, 65536] if not thorough else [65537, 70000, 65535, 65536, 65550, 65551, 131073]
     for n in big:
         out.append(('big', 0, rng.randrange(256), n))
     return out
 
 
-def check_object(ctx, sr, base, code, label):
+def check_object(ctx, sr, base, code, label, seed=None):
     """independent-reader oracle on the real output. Returns True when fine."""
     out = impl_write(sr, base, code)
     replay = ('PYTHONPATH=/repo python -c "import io; from ppci.format.srecord import write_srecord; '
               'from ppci.binutils.objectfile import ObjectFile, Section; from ppci.api import get_arch; '
               'o=ObjectFile(get_arch(\'arm\')); s=Section(\'code\'); s.address=%d; '
-              's.add_data(bytes(CODE)); o.add_section(s); f=io.StringIO(); write_srecord(o,f); print(f.getvalue())"  '
-              '# CODE = the "code" field (or %d bytes, code[i]=(seed+7i+i//256)%%256)' % (base, len(code)))
+              's.add_data(bytes(%s)); o.add_section(s); f=io.StringIO(); write_srecord(o,f); print(f.getvalue())"'
+              % (base, repr(list(code)) if len(code) <= 80 or seed is None else
+                 '(%d+7*i+i//256)%%256 for i in range(%d)' % (seed, len(code))))
     rec = {'fn': 'write_srecord', 'base': base, 'size': len(code),
-           'code': list(code) if len(code) <= 80 else 'generated, see how_to_replay', 'how_to_replay': replay}
+           'code': list(code) if len(code) <= 80 else 'see how_to_replay', 'how_to_replay': replay}
     fits = base + len(code) <= (1 << 32)
     if not isinstance(out, OkV):
         if fits:
@@ -230,7 +231,7 @@ def check_object(ctx, sr, base, code, label):
 def oracle_sweep(ctx, sr, thorough):
     n = 0
     for (label, base, seed, size) in objects(ctx, thorough):
-        check_object(ctx, sr, base, gen_code(seed, size), label)
+        check_object(ctx, sr, base, gen_code(seed, size), label, seed)
         n += 1
     # witnesses of the refuted theorems (Props/C19.v), replayed on the implementation every run
     check_object(ctx, sr, 0, [], 'witness_header')
@@ -297,7 +298,7 @@ def run(ctx):
         # ---- correspondence 2: whole files, line by line; 3: Coq reference reader on the real output
         objs = objects(ctx, thorough)
         small = [o for o in objs if o[0] != 'big']
-        bigs = [o for o in objs if o[0] == 'big']
+        bigs = [o for o in objs if o[0] == 'big'][:(1 if not thorough else 7)]   # model side is slow; the oracle sees all
         fcases, bcases, rcases = [], [], []
         seen = set()
         dist = {}
